@@ -320,6 +320,51 @@ pub fn run(ctx: &Ctx) -> i32 {
             check(site, &s, acc);
         }));
     }
+    // long strings: a special character near every likely cut position of a longer string
+    let mut longs: Vec<String> = vec![];
+    for len in [14usize, 15, 16, 17, 31, 32, 33, 63, 64, 65, 127, 128, 129, 255, 256, 257, 1000] {
+        for sp in ["", "\"", "\\", "~", "é"] {
+            for pos in [0usize, len / 2, len.saturating_sub(3), len.saturating_sub(2), len - 1] {
+                let mut s: String = "a".repeat(pos);
+                s.push_str(sp);
+                while s.chars().count() < len {
+                    s.push('b');
+                }
+                longs.push(s);
+            }
+        }
+    }
+    longs.sort();
+    longs.dedup();
+    acc = acc.merge(par_cases((longs.len() * SITES.len()) as u64, |i, acc| {
+        let site = SITES[(i % SITES.len() as u64) as usize];
+        check(site, &longs[(i / SITES.len() as u64) as usize], acc);
+    }));
+    // with a logger listening at the most verbose level the program must be the same text
+    log::set_max_level(log::LevelFilter::Trace);
+    let mut verbose = Acc::new();
+    for site in SITES {
+        for s in ["a", "a\"b", "x\ny", "(display 1)\n(x", "é~\\"] {
+            check(site, s, &mut verbose);
+            let quiet = {
+                log::set_max_level(log::LevelFilter::Off);
+                let r = render(site, s);
+                log::set_max_level(log::LevelFilter::Trace);
+                r
+            };
+            if let (Ok(Some(q)), Ok(Some(v))) = (quiet, render(site, s)) {
+                if q.text != v.text {
+                    verbose.violate(Violation::new(
+                        format!("C04:program-depends-on-log-level:site={site:?}"),
+                        format!("site {site:?}, string {s:?}: the emitted text differs when a logger listens at Trace level"),
+                        json!({"kind": "c04", "site": format!("{site:?}"), "string": s, "log": "trace"}),
+                    ));
+                }
+            }
+        }
+    }
+    log::set_max_level(log::LevelFilter::Off);
+    acc = acc.merge(verbose);
     let dict = dictionary();
     acc = acc.merge(par_cases((dict.len() * SITES.len()) as u64, |i, acc| {
         let site = SITES[(i % SITES.len() as u64) as usize];
@@ -333,7 +378,7 @@ pub fn run(ctx: &Ctx) -> i32 {
             level: "model_checking",
             exhaustive: true,
             rule: "state = (string-carrying site, user string); the tree is built through the public constructors, compiled and rendered; the text is read back by the independent Guile reader: two expected forms, identical skeleton (string literals replaced by holes) to the program for a benign string, the literal at the site decodes to the user string (literal format text: printed verbatim in the runtime model; file names: present in the destination table); distinct = distinct (site, skeleton) pairs".into(),
-            bound: format!("every string of length 1..{n} over {:?}, and each of {dict_len} placeholder-like strings, at each of {} sites", ALPHA, SITES.len()),
+            bound: format!("every string of length 1..{n} over {:?}, each of {dict_len} placeholder-like strings, and strings of 14..1000 characters with a quote / backslash / tilde / non-ASCII character at five positions, at each of {} sites; five strings per site again with a logger listening at Trace level", ALPHA, SITES.len()),
             assumptions: vec![
                 "Guile string-literal escapes as documented in the Guile manual (speclib/src/scm/reader.rs); any other backslash escape is a read error".into(),
                 "a string with a glob character is compared with a benign string that also has one (globs legitimately select another matcher primitive)".into(),
@@ -346,6 +391,9 @@ pub fn run(ctx: &Ctx) -> i32 {
 pub fn replay(w: &Value) -> Vec<Violation> {
     let mut acc = Acc::new();
     let site = SITES.iter().find(|s| format!("{s:?}") == w["site"].as_str().unwrap_or("")).copied();
+    if w["log"] == "trace" {
+        log::set_max_level(log::LevelFilter::Trace);
+    }
     if let Some(site) = site {
         check(site, w["string"].as_str().unwrap_or(""), &mut acc);
     }
